@@ -23,7 +23,7 @@ def probes_in(body, blocks=None):
 def bound_rule(ctx, R, name, b, blocks, header, fields, adt, what):
     """the index loop runs until the end of self.<vec>.  Weaker, always decided: the exit condition derives
     from the vector's length; precise (undecided when the bound is cached in a local): it *is* the length."""
-    k = pe.index_loop_bound(ctx, b, blocks, header, fields, adt)
+    k, sw = pe.index_loop_bound(ctx, b, blocks, header, fields, adt)
     ctx.check(k is not None, R + '/' + name, 'T-LOOPMUST', b.name, '%s is not bounded by the length of self.%s' % (what, '/'.join(fields)), b.site())
     X = 'C03.exact/%s/%s' % (R.split('.')[-1], name)        # own family without a floor: may be undecided after a refactoring
     if k == 'precise': ctx.ok(X, 'T-LOOPMUST', b.site())
@@ -31,6 +31,8 @@ def bound_rule(ctx, R, name, b, blocks, header, fields, adt, what):
         ctx.undecided(X, 'T-LOOPMUST', b.site(), 'the loop bound is a local derived from %s.len() (cached bound); its updates are not decided' % '/'.join(fields))
     else:
         ctx.bad(X, 'T-LOOPMUST', b.name, '%s: no comparison of the index with self.%s.len() and no `.get(index)` decides the loop exit' % (what, '/'.join(fields)), b.site())
+    ex = pe.early_exits(b, set(blocks), sw, header) if sw is not None else []
+    ctx.check(sw is not None and not ex, R + '/' + name + '/no-early-exit', 'T-LOOPMUST', b.name, '%s can be left early on the way to an Ok-exit (bb%s)' % (what, ', bb'.join(str(u) for u, v in ex)), b.site())
 
 
 def ret_is_used(ctx, R, b):
@@ -144,7 +146,7 @@ def quadratic_rules(ctx):
     ctx.check(len(maps) == 1 and map_l is not None and map_l in maps, R + '/result/one-map', 'T-CARRY', b.name, 'linear coefficients are collected in different maps', b.site())
     # self.linear is written on every success path, None only when nothing is left
     ws = writes_to_self_field(b, 'v1::Quadratic', 'linear')
-    ctx.check(len(ws) >= 1 and T.must_pass(b, 0, b.strict_ok_exits(), {bi for bi, st in ws}), R + '/result/linear-written', 'T-MUSTCALL', b.name, 'self.linear is not rewritten on every success path', b.site())
+    ctx.check(len(ws) >= 1 and pe.before_every_ok(b, {bi for bi, st in ws}), R + '/result/linear-written', 'T-MUSTCALL', b.name, 'self.linear is not rewritten on every success path', b.site())
     for bi, st in ws:
         for nb in value_defs(b, st['rv']['ops'][0], 'Option::None') if st['rv']['k'] == 'use' else []:
             # None only where map.is_empty() && constant == 0
@@ -176,6 +178,8 @@ def polynomial_rules(ctx):
     ctx.check(inner is not None and outer is not None, R + '/loops', 'T-LOOPMUST', b.name, 'the probe is not inside a loop over the ids of a monomial inside a loop over the monomials', b.site())
     if inner is None or outer is None: return
     loop_must(ctx, R + '/every-id', b, inner, lambda c: c is pr[0], 'state.get(id)')
+    pe.no_early_exit(ctx, R + '/every-id/no-early-exit', b, inner)
+    pe.no_early_exit(ctx, R + '/collect/every-term/no-early-exit', b, outer)
     # ---- what happens to an id in each case, including what is done later to the vector it was pushed to
     raw = pe.table(ctx, b, pr, h, 'v1::Polynomial')
     info = pe.PolyInfo(ctx, b, outer)
@@ -203,7 +207,7 @@ def polynomial_rules(ctx):
     ok = False
     for bi, st in ws:
         s = ctx.S.slice_operand(b, st['rv']['ops'][0])
-        ok = info.map_local is not None and info.map_local in s.locals and all(b.dominates(bi, e) for e in b.strict_ok_exits())
+        ok = info.map_local is not None and info.map_local in s.locals and pe.before_every_ok(b, {bi})
     ctx.check(ok, R + '/rebuild/terms-from-map', 'T-CARRY', b.name, 'self.terms is not rebuilt from the collected map on every success path', b.site())
     aggs = find_aggregates(b, 'v1::Monomial')
     for cb in ctx.F.closures_of(b.orig):
@@ -238,22 +242,23 @@ def delegate_rules(ctx):
             if tys and arm and tys[0] == arm[0] and T.access_path(b, c.args[1])[1] == 2: got[tys[0]] = c
         ctx.check(set(got) == set(want), R + '/Function/arms', 'T-BRANCHFX', b.name, 'arms delegating to their payload: %s, expected %s' % (sorted(got), sorted(want)), b.site())
         pe.errflow_calls(ctx, R + '/Function/errors', b, pes, 'payload partial_evaluate')
-        for e, k, st in b.ret_assignments():
-            if k == 'ok':
-                s = ctx.S.slice_operand(b, st['rv']['ops'][0])
-                ctx.check(all(c in s.call_objs for c in got.values()), R + '/Function/returns-payload-set', 'T-CARRY', b.name, 'returned set does not come from the payload', b.site(e))
+        # on the arm of a variant the function returns what the payload returned: `Ok(match .. { V(x) => x.pe(state)?, .. })`
+        # == `match .. { V(x) => x.pe(state), .. => Ok(empty) }`
+        notret = sorted(k for k, c in got.items() if not pe.result_reaches_return(ctx, b, c))
+        ctx.check(bool(got) and not notret, R + '/Function/returns-payload-set', 'T-CARRY', b.name, 'returned set does not come from the payload of %s' % notret, b.site())
     for ty, field in (('v1::Constraint', ('v1::Constraint', 'function')), ('v1::RemovedConstraint', ('v1::RemovedConstraint', 'constraint'))):
         b = pe.lnorm(ctx, ctx.method(R + '/%s/anchor' % ty.split('::')[-1], ty, 'partial_evaluate', trait='Evaluate'))
         if b is None: continue
         pes = [c for c in b.calls if c.item == 'partial_evaluate' and 'Evaluate' in (c.trait or '')]
-        ok = len(pes) == 1 and field in T.access_path(b, pes[0].args[0])[0] and T.access_path(b, pes[0].args[1])[1] == 2
+        ok = len(pes) == 1 and pe.from_self_field(ctx, b, pes[0].args[0], field[0], field[1]) and ('param', 2) in pe.prov(ctx, b, pes[0].args[1])
         ctx.check(ok, R + '/%s/passes-state' % ty.split('::')[-1], 'T-CARRY', b.name, 'does not partially evaluate its %s with the given state' % field[1], b.site())
         for c in pes:
             res = pe.errflow(b, c.dst['l'])
             ctx.check(not [h for k, h in res if k == 'bad'], R + '/%s/returns-result' % ty.split('::')[-1], 'T-ERRFLOW', b.name, 'result of the inner partial_evaluate is not returned / propagated', b.site(c.bb))
         if ty.endswith('RemovedConstraint'):
-            opt = [c for c in b.calls if c.item == 'as_mut' and 'Option::<v1::Constraint>' in c.name]
-            pe.errflow_calls(ctx, R + '/RemovedConstraint/missing-is-error', b, opt, 'missing constraint')
+            # a removed constraint without constraint is an error: `.context(..)?` == `.ok_or_else(..)?` == `match { None => bail!() }` == let-else
+            n, bad = pe.none_is_error(ctx, b, 'v1::RemovedConstraint', 'constraint')
+            ctx.check(n > 0 and not bad, R + '/RemovedConstraint/missing-is-error', 'T-ERRFLOW', b.name, 'missing constraint: %s' % ('; '.join(sorted(set(bad))) or 'self.constraint is never tested'), b.site())
 
 
 def instance_rules(ctx):
@@ -266,13 +271,12 @@ def instance_rules(ctx):
     want = {'objective': r'v1::Function$', 'constraints': r'v1::Constraint$', 'removed_constraints': r'v1::RemovedConstraint$', 'decision_variable_dependency': r'v1::Function$'}
     found = {}
     for c in pes:
-        s = ctx.S.slice_operand(b, c.args[0])
-        for f, pat in want.items():
-            # the receiver derives from self.<f>; its type is the element type (or the type parameter of an inlined generic helper, which can only be instantiated with it)
-            if s.has_field(INST, f) and (re.search(pat, c.self_ty or '') or generic_self(c)) and f not in found:
-                if f == 'objective' and s.has_field(INST, 'decision_variable_dependency'): continue
-                if f != 'objective' and generic_self(c) and sum(1 for g in want if s.has_field(INST, g)) != 1: continue
-                found[f] = c
+        # the receiver comes from self.<f> (precise provenance: not confused by helpers that take the whole `&mut self`);
+        # its type is the element type, or the type parameter of an inlined generic helper (instantiable only with it)
+        src = [f for f in want if pe.from_self_field(ctx, b, c.args[0], INST, f)]
+        if len(src) != 1: continue
+        f = src[0]
+        if f not in found and (re.search(want[f], c.self_ty or '') or generic_self(c)): found[f] = c
     for f in want:
         c = found.get(f)
         ctx.check(c is not None, R + '/apply/' + f, 'T-MUSTCALL', b.name, 'self.%s is not partially evaluated' % f, b.site())
@@ -280,39 +284,54 @@ def instance_rules(ctx):
         ctx.check(T.access_path(b, c.args[1])[1] == 2, R + '/apply/%s/state' % f, 'T-CARRY', b.name, 'not with the given state', b.site(c.bb))
         pe.errflow_calls(ctx, R + '/apply/%s/error' % f, b, [c], 'partial_evaluate')
         if f == 'objective':
-            must_pass_or_none(ctx, R + '/apply/objective/every-path', b, c, INST, 'objective', 'partially evaluating the objective')
+            pe.must_pass_or_none(ctx, R + '/apply/objective/every-path', b, c, INST, 'objective', 'partially evaluating the objective')
         else:
             ls = [lo for lo in T.for_loops(b) if c.bb in lo[4]]
             ctx.check(len(ls) == 1, R + '/apply/%s/loop' % f, 'T-LOOPMUST', b.name, 'not inside a loop over self.%s' % f, b.site(c.bb))
             for lo in ls:
                 loop_must(ctx, R + '/apply/%s/every-item' % f, b, lo, lambda x: x is c, 'partial_evaluate')
+                pe.no_early_exit(ctx, R + '/apply/%s/every-item/no-early-exit' % f, b, lo)
                 ctx.check(lo[0].dst['l'] in ctx.S.slice_operand(b, c.args[0]).locals, R + '/apply/%s/item' % f, 'T-CARRY', b.name, 'receiver is not the loop item', b.site(c.bb))
-                ctx.check(all(b.dominates(lo[1], e) for e in b.strict_ok_exits()), R + '/apply/%s/dominates' % f, 'T-MUSTCALL', b.name, 'loop does not dominate the Ok-exit', b.site(c.bb))
+                ctx.check(pe.before_every_ok(b, {lo[1]}), R + '/apply/%s/dominates' % f, 'T-MUSTCALL', b.name, 'loop does not dominate the Ok-exit', b.site(c.bb))
     # returned set is the union of every call's result
     for e, k, st in b.ret_assignments():
         if k == 'ok':
-            s = ctx.S.slice_operand(b, st['rv']['ops'][0])
-            miss = [f for f, c in found.items() if c not in s.call_objs]
+            o = st['rv']['ops'][0]
+            miss = [f for f, c in found.items() if not (o['k'] in ('copy', 'move') and o['pl']['l'] in pe.flows_from(b, c.dst['l']))]
             ctx.check(not miss and len(found) == 4, R + '/returns-union', 'T-CARRY', b.name, 'returned set misses the ids reported for %s' % miss, b.site(e))
     # substituted_value <- the state's value for the variable's own id, for every variable with a value
-    loops = loops_over(ctx, b, INST, 'decision_variables')
+    loops = [lo for lo in T.for_loops(b) if pe.from_self_field(ctx, b, lo[0].args[0], INST, 'decision_variables')]
     pr = probes_in(b)
     ws = [(bi, st) for bi, st in b.stmts() if st['dst']['p'] and fields_of_place(st['dst'])[-1:] == [(DV, 'substituted_value')]]
     ok = False
-    if len(loops) == 1 and len(pr) == 1 and len(ws) == 1:
-        lo = loops[0]; bi, st = ws[0]
-        key_ok = (DV, 'id') in T.expr_fields(T.expr(b, pr[0].args[1])) and lo[0].dst['l'] in ctx.S.slice_operand(b, pr[0].args[1]).locals
-        ex = T.expr(b, st['rv']['ops'][0])
-        val_ok = ex[0] == 'agg' and ex[1].endswith('Option::Some') and any(x[0] == 'call' and x[1] == 'get' for x in T.expr_walk(ex))
-        arms = T.option_arms(b, pr[0].dst['l'])
-        path_ok = bool(arms) and all(T.must_pass(b, m.get(1, els), {lo[1]}, {bi}) for sb, m, els in arms)
-        same_var = lo[0].dst['l'] in ctx.S.backslice(b, [st['dst']['l']]).locals
-        ok = key_ok and val_ok and path_ok and same_var
-        loop_must(ctx, R + '/record/every-variable', b, lo, lambda c: c is pr[0], 'state.get(v.id)')
+    if len(loops) == 1 and len(pr) == 1 and len(ws) >= 1:
+        lo = loops[0]; p = pr[0]
+        key_ok = (DV, 'id') in T.expr_fields(T.expr(b, p.args[1])) and lo[0].dst['l'] in ctx.S.slice_operand(b, p.args[1]).locals and p.bb in lo[4]
+        def kind(st):
+            """what a write to v.substituted_value stores:
+                 Some(*value) / Some(state.entries[&v.id])            -> 'some'   (value of the variable's own id)
+                 state.entries.get(&v.id).copied().or(v.substituted_value)  -> 'or'  (same when fixed, unchanged otherwise)"""
+            ex = T.strip_wrappers(T.expr(b, st['rv']['ops'][0])) if st['rv'].get('ops') else ('local', -1)
+            if ex[0] == 'agg' and ex[1].endswith('Option::Some') and ex[2] and pe.label(b, ex[2][0]) == 'val[id]': return 'some'
+            if ex[0] == 'call' and ex[1] == 'or' and len(ex[3]) == 2:
+                first = T.strip_wrappers(ex[3][0])
+                if first[0] == 'call' and len(first) > 4 and first[4] == p.bb and (DV, 'substituted_value') in T.expr_fields(ex[3][1]): return 'or'
+            return None
+        kinds = {bi: kind(st) for bi, st in ws}
+        same_var = all(lo[0].dst['l'] in ctx.S.backslice(b, [st['dst']['l']]).locals and bi in lo[4] for bi, st in ws)
+        good = {bi for bi, k in kinds.items() if k is not None}
+        # fixed: every path back to the loop header records the value; free: nothing but the `or` idiom touches the field
+        fixed_ok = bool(good) and not pe.walk(b, [p.target], stop={lo[1]}, env0={(p.dst['l'], ()): 1}, avoid=good)[1] \
+            and not (pe.walk(b, [p.target], stop={lo[1]}, env0={(p.dst['l'], ()): 1})[0] & {bi for bi, k in kinds.items() if k is None})
+        free_reg = pe.walk(b, [p.target], stop={lo[1]}, env0={(p.dst['l'], ()): 0})[0]
+        free_ok = not (free_reg & {bi for bi, k in kinds.items() if k != 'or'})
+        ok = key_ok and fixed_ok and free_ok and same_var
+        loop_must(ctx, R + '/record/every-variable', b, lo, lambda c: c is p, 'state.get(v.id)')
+        pe.no_early_exit(ctx, R + '/record/every-variable/no-early-exit', b, lo)
     ctx.check(ok, R + '/record/substituted_value', 'T-BRANCHFX', b.name, 'a fixed value is not recorded as substituted_value of its own decision variable', b.site())
 
 
 def check(ctx):
     linear_rules(ctx); quadratic_rules(ctx); polynomial_rules(ctx); delegate_rules(ctx); instance_rules(ctx)
     pe.unmark(ctx)
-    ctx.floor('C03.linear', 7); ctx.floor('C03.quadratic', 16); ctx.floor('C03.polynomial', 15); ctx.floor('C03.delegate', 10); ctx.floor('C03.instance', 37)
+    ctx.floor('C03.linear', 8); ctx.floor('C03.quadratic', 17); ctx.floor('C03.polynomial', 17); ctx.floor('C03.delegate', 10); ctx.floor('C03.instance', 41)
